@@ -101,7 +101,8 @@ class Contract:
     def __init__(self, func, setup=None, requires=None, ensures=None, raises=None, result=None, modifies=None,
                  loops=None, snapshot=None, inline=(), recursive_by_contract=False, witnesses=None,
                  canaries=None, note="", props=(), generator=False, max_paths=2000, any_raise_ok=False,
-                 concretize=None, rt=None, rt_family=None, on_raise=None):
+                 concretize=None, rt=None, rt_family=None, on_raise=None, overrides=None):
+        self.overrides = overrides or {}  # callee "module:qualname" -> Contract used only while verifying THIS body
         self.on_raise = on_raise  # (s, ExcClass) -> [(label, term)]: exceptional postconditions proved on every raising path
         self.concretize = concretize
         self.rt = rt
@@ -185,6 +186,8 @@ class Contract:
                 reg.index_loops(g.__qualname__, func_ast(g)[0])
         obligs = {}
         outcomes = []
+        for q, c in self.overrides.items():
+            reg.contracts[q] = c
 
         def run(ctx):
             interp = Interp(ctx, reg)
@@ -197,10 +200,14 @@ class Contract:
             for lab, t in self.labelled(self.requires(s)):
                 ctx.assume(t)
             s.old = self.snapshot(s) if self.snapshot else None
-            names = self.param_names()
+            a_ = func_ast(real)[0].args
+            names = [p.arg for p in a_.posonlyargs + a_.args]
             pv = getattr(s, "param_values", None) or {}  # explicit values for parameters whose name collides with NS bookkeeping (`mode`, `ctx`, `old`, ...)
             args = [pv[n] if n in pv else getattr(s, n) for n in names if n in pv or hasattr(s, n)] + list(getattr(s, "varargs", ()))  # varargs: extra positionals for *args
-            kwargs = getattr(s, "kwargs", {})
+            kwargs = dict(getattr(s, "kwargs", {}))
+            for p_ in a_.kwonlyargs:  # keyword-only parameters are passed by keyword
+                if p_.arg in pv or hasattr(s, p_.arg):
+                    kwargs.setdefault(p_.arg, pv[p_.arg] if p_.arg in pv else getattr(s, p_.arg))
             clo = interp.closure_of(real)
             try:
                 env = interp.bind_args(clo, args, kwargs)
